@@ -74,6 +74,8 @@ def ev(e, env):
         raise KeyError(c)                      # a signal the environment does not give a value to
     if op == 'slice':
         v = ev(e.args[0], env)
+        if not isinstance(e.args[2], int):     # x[lo:] of a value of undeclared width: everything from bit lo upwards
+            return v >> e.args[1]
         return (v >> e.args[1]) & ((1 << (e.args[2] - e.args[1])) - 1)
     if op == 'call' and e.args[0] in ('any', 'bool'):
         return int(ev(e.args[1], env) != 0)
